@@ -65,7 +65,7 @@ let run_case opname t =
       let bits = next_nat t in
       let ops = parse_ops t in
       let show_ull = kind = "bs" in
-      let m = run_m bits w (init_state bits w) ops in
+      let m = run_m bits w (init_m bits w) ops in
       let s = s_run bits (s_init bits) ops in
       let in_dom = List.for_all op_dom ops in
       (String.concat " ; " (List.map (m_step_s show_ull) m),
@@ -76,13 +76,8 @@ let run_case opname t =
       let w = next_nat t in
       let bits = next_nat t in
       let ops = parse_ops t in
-      let rec go st = function
-        | [] -> []
-        | o :: rest ->
-            (match step_m bits w st o with
-             | Ok (st', _) -> words_s (fst st') :: go st' rest
-             | _ -> "contract" :: go st rest) in
-      (String.concat " ; " (go (init_state bits w) ops), "na")
+      let r = run_words_m bits w (init_m bits w) ops in
+      (String.concat " ; " (List.map (function Some ws -> words_s ws | None -> "contract") r), "na")
   | "strbad" ->
       (* string constructor outside the standard's domain (characters other than zero/one):
          only the correspondence is checked *)
@@ -93,8 +88,9 @@ let run_case opname t =
       let zero = next_n t in
       let one = next_n t in
       let w = nat_of_int 64 in
-      let m = match of_string bits w s pos n zero one with
-        | Ok ws -> join [ chars_s (to_string_m bits w ws chr0 chr1); string_of_int (int_of_nat (count_m ws)) ]
+      let mx = ones0 w in
+      let m = match of_string bits w mx mx s pos n zero one with
+        | Ok ws -> join [ chars_s (to_string_m bits w mx ws chr0 chr1); string_of_int (int_of_nat (count_m ws)) ]
         | _ -> "contract" in
       (m, "na")
   | "tostr" ->
@@ -103,8 +99,9 @@ let run_case opname t =
       let zero = next_n t in
       let one = next_n t in
       let w = nat_of_int 64 in
-      let m = match of_string bits w s O (n_of_big npos_big) chr0 chr1 with
-        | Ok ws -> join [ codes_s (to_string_m bits w ws zero one); codes_s (to_string_m bits w ws zero chr1) ]
+      let mx = ones0 w in
+      let m = match of_string bits w mx mx s O (n_of_big npos_big) chr0 chr1 with
+        | Ok ws -> join [ codes_s (to_string_m bits w mx ws zero one); codes_s (to_string_m bits w mx ws zero chr1) ]
         | _ -> "contract" in
       let p = match s_of_string bits s O (n_of_big npos_big) chr0 chr1 with
         | SOk a -> join [ codes_s (s_to_string a zero one); codes_s (s_to_string a zero chr1) ]
@@ -114,7 +111,7 @@ let run_case opname t =
       (* detail::popcount_fallback<UInt> (the constant-evaluation path of popcount) and popcount *)
       let w = next_nat t in
       let x = next_n t in
-      let fb = match popcount_fallback w (S w) x with Some c -> string_of_int (int_of_nat c) | None -> "fuel" in
+      let fb = match popcount_fallback (ones0 w) (S w) x with Some c -> string_of_int (int_of_nat c) | None -> "fuel" in
       let c = string_of_int (int_of_nat (popcount x)) in
       (join [ fb; c ], join [ c; c ])
   | _ -> raise Not_found
